@@ -1170,8 +1170,9 @@ _pattern = st.one_of(
 
 
 def _ops(max_ops):
-    one = _op.map(lambda o: [o])
-    return st.lists(st.one_of(one, one, one, one, one, one, _pattern), min_size=2, max_size=max_ops).map(
+    # six distinct strategy objects: one_of() drops repeated occurrences of the same object
+    singles = [_op.map(lambda o: [o]) for _ in range(6)]
+    return st.lists(st.one_of(*singles, _pattern), min_size=2, max_size=max_ops).map(
         lambda ll: [o for chunk in ll for o in chunk][:max_ops])
 
 
@@ -1258,7 +1259,7 @@ def _repair_columns_hidden_pack():
             canv = urwid.CompositeCanvas(canv)
         widths = self.get_column_sizes(size, focus)[0]
         shown = sum(1 for wd in widths if wd > 0)
-        if shown < len(self.contents) and any(o[0] == PACK for _w, o in self.contents):
+        if shown < len(self.contents) and any(o[0] == PACK for _w, o in self.contents) and not getattr(self, "_c06_linebox_title_line", False):
             canv.set_depends([w for w, _o in self.contents])
         canv.finalize(self, size, focus)
         urwid.CanvasCache.store(cls, canv)
@@ -1267,8 +1268,21 @@ def _repair_columns_hidden_pack():
     render.original_fn = orig.original_fn
     cls.render = render
 
+    # LineBox's own title line is such a Columns (an empty title is a hidden 'pack' column); LineBox.set_title()
+    # works around the missing dependency by invalidating the title line itself.  The repair is not simulated
+    # there, so that the recorded finding does not also explain a LineBox that lost that workaround.
+    lb_init = urwid.LineBox.__init__
+
+    def linebox_init(self, *a, **kw):
+        lb_init(self, *a, **kw)
+        if self.tline_widget is not None:
+            self.tline_widget._c06_linebox_title_line = True
+
+    urwid.LineBox.__init__ = linebox_init
+
     def undo():
         cls.render = orig
+        urwid.LineBox.__init__ = lb_init
 
     return undo
 
